@@ -114,7 +114,7 @@ fn main() {
         (Some(op), Some(case)) => monitors::replay(&prop, &env, &op, &case),
         _ => monitors::run(&prop, &env),
     };
-    let rec = match rec {
+    let mut rec = match rec {
         Some(r) => r,
         None => {
             eprintln!("unknown property {}", prop);
@@ -125,13 +125,14 @@ fn main() {
     let tier_s = if tier == Tier::Quick { "quick" } else { "thorough" };
     let j = rec.to_json(&prop, tier_s, seed, wall);
     std::fs::write(&out, j.to_string()).expect("write result");
+    let distinct = rec.distinct();
     println!(
         "{} {} seed={} evaluations={} distinct_nontrivial={} violations={} wall={:.1}s",
         prop,
         tier_s,
         seed,
         rec.evaluations,
-        rec.nontrivial.len(),
+        distinct,
         rec.n_violations(),
         wall
     );
